@@ -5,7 +5,8 @@
 W="$1"; META="$2"; CFG="$3"; TLA="$4"; shift 4
 XMX="${VERIF_TLC_XMX:-6g}"
 QUEUE="${VERIF_TLC_QUEUE:--Dtlc2.tool.queue.IStateQueue=StateDeque}"
+GC="-XX:+UseParallelGC"; [ "$W" -le 2 ] && GC="-XX:+UseSerialGC"
 HERE="$(cd "$(dirname "$0")/.." && pwd)"
-exec java -DTLA-Library="$HERE/spec:$HERE/spec/data:$HERE/spec/mc:$HERE/spec/gen:$HERE/spec/trace" -Xss1g -Xmx"$XMX" -XX:+UseParallelGC $QUEUE \
+exec java -DTLA-Library="$HERE/spec:$HERE/spec/data:$HERE/spec/mc:$HERE/spec/gen:$HERE/spec/trace" -Xss1g -Xmx"$XMX" $GC $QUEUE \
   -cp /opt/veriftools/tla/tla2tools.jar:/opt/veriftools/tla/CommunityModules-deps.jar \
   tlc2.TLC -workers "$W" -metadir "$META" -cleanup -noGenerateSpecTE -config "$CFG" "$@" "$TLA"
